@@ -431,6 +431,7 @@ func (s *Stream) packetize(raw []byte, ppi PayloadProtocolIdentifier) ([]*chunkP
 			fragmentSequenceNumber: fsn,
 			iData:                  useInterleaving,
 			head:                   head,
+			stream:                 s,
 		}
 
 		if useInterleaving {
